@@ -4,7 +4,7 @@ use std::collections::HashMap;
 use crate::verif_hash::HashMap;
 
 use crate::{
-    env::{Constraint, PackageTypeEnv},
+    env::{Constraint, OperandClass, PackageTypeEnv},
     tast::{self, TastIdent, TypeVar},
     typer::Typer,
 };
@@ -181,6 +181,46 @@ fn instantiate_struct_field_ty(
         None
     }
 }
+
+/// Whether `ty` is in the domain of the operator class; `None` while the type is not known yet.
+fn operand_in_domain(op: OperandClass, ty: &tast::Ty) -> Option<bool> {
+    let numeric = matches!(
+        ty,
+        tast::Ty::TInt8
+            | tast::Ty::TInt16
+            | tast::Ty::TInt32
+            | tast::Ty::TInt64
+            | tast::Ty::TUint8
+            | tast::Ty::TUint16
+            | tast::Ty::TUint32
+            | tast::Ty::TUint64
+            | tast::Ty::TFloat32
+            | tast::Ty::TFloat64
+    );
+    match ty {
+        tast::Ty::TVar(_) => None,
+        // generic code is checked at its instances
+        tast::Ty::TParam { .. } => Some(true),
+        _ => Some(match op {
+            OperandClass::Arithmetic => numeric,
+            OperandClass::Additive | OperandClass::Ordered => {
+                numeric || matches!(ty, tast::Ty::TString)
+            }
+            OperandClass::Equality => match ty {
+                tast::Ty::TFunc { .. } | tast::Ty::TVec { .. } => false,
+                tast::Ty::TTuple { typs } => {
+                    return typs
+                        .iter()
+                        .map(|t| operand_in_domain(op, t))
+                        .try_fold(true, |acc, r| r.map(|ok| acc && ok));
+                }
+                tast::Ty::TArray { elem, .. } => return operand_in_domain(op, elem),
+                _ => true,
+            },
+        }),
+    }
+}
+
 
 fn decompose_struct_type(ty: &tast::Ty) -> Option<(TastIdent, Vec<tast::Ty>)> {
     match ty {
@@ -385,6 +425,25 @@ impl Typer {
                                 field,
                                 result_ty,
                             });
+                        }
+                    }
+                    Constraint::OperandDomain { op, ty } => {
+                        let norm_ty = self.norm(&ty);
+                        match operand_in_domain(op, &norm_ty) {
+                            Some(true) => {}
+                            Some(false) => {
+                                diagnostics.push(Diagnostic::new(
+                                    Stage::Typer,
+                                    Severity::Error,
+                                    format!(
+                                        "Operator is not defined for operands of type {:?}",
+                                        norm_ty
+                                    ),
+                                ));
+                            }
+                            None => {
+                                still_pending.push(Constraint::OperandDomain { op, ty: norm_ty })
+                            }
                         }
                     }
                 }
